@@ -1095,6 +1095,68 @@ def parse_c_functions_nested(text):
     return out
 
 
+# ============================================================================ R11.3 (c) releases of sibling components are independent
+def from_free(o, depth=0):
+    """does a switch operand derive from the value returned by `InterfaceGenerator::free`?"""
+    if not isinstance(o, dict) or depth > 8:
+        return False
+    if o.get("kind") == "call":
+        return o["call"].matches("InterfaceGenerator::free")
+    return any(from_free(o.get(k), depth + 1) for k in ("a", "b", "of"))
+
+
+def r11_3_independent_mir(rep):
+    """no `free(..)` call of define_dtor is control-dependent on what another `free(..)` call reported"""
+    c = mir.load("ws", "wit_bindgen_c", "rlib")
+    f = c.method("InterfaceGenerator", "define_dtor")
+    rep.saw(f)
+    calls = sorted(f.calls("InterfaceGenerator::free"), key=lambda cl: f.loc(cl.bb))
+    rep.floor("R11.3", "define_dtor (MIR): calls of InterfaceGenerator::free", len(calls), 12)
+    seen = {}
+    for cl in calls:
+        ge = f.guard_edges(cl.bb)
+        kind = "?"
+        for sb, vals, o in ge:
+            if o.get("kind") == "discr" and "TypeDefKind" in str(o.get("ty", "")):
+                names = sorted({o.get("vars", {}).get(v, str(v)) for v in vals if v != "else"})
+                kind = "|".join(names) if names else "?"
+                break
+        a = f.origin(cl.args[2]) if len(cl.args) > 2 else {}
+        place = f"`{a['s']}`" if a.get("kind") == "const" and "s" in a else "a computed place"
+        inst = f"define_dtor: TypeDefKind::{kind}: the release of {place} does not depend on what another component's release reported"
+        seen[inst] = seen.get(inst, 0) + 1
+        if seen[inst] > 1:
+            inst += f" (#{seen[inst]})"
+        bad = [f.loc(sb) for sb, vals, o in ge if from_free(o)]
+        rep.ob("R11.3", inst, not bad,
+               f"the call is reached only through a branch on the result of another `free(..)` (at {bad}): when that component owns "
+               "memory / owns none, this component's release is never emitted and the helper leaks it" if bad else
+               "reached on every path of its arm, whatever the other releases emit", f.loc(cl.bb))
+
+
+def r11_3_independent_syn(rep):
+    """syntactic counterpart: no `self.free(..)` sits behind `||` / `&&` / an `if` whose condition holds another `self.free(..)`"""
+    f = the_fn("define_dtor", self_ty="InterfaceGenerator")
+
+    def is_free(n):
+        return n.get("k") == "mcall" and n["method"] == "free" and render(n["recv"]) == "self"
+    frees = [n for n in synq.walk(f.body) if is_free(n)]
+    rep.floor("R11.3", "define_dtor: `self.free(..)` calls", len(frees), 12)
+    bad = []
+    for n in synq.walk(f.body):
+        if n.get("k") == "binary" and n["op"] in ("||", "&&") and any(is_free(x) for x in synq.walk(n["l"])):
+            bad += [(x, f"right operand of `{n['op']}`") for x in synq.walk(n["r"]) if is_free(x)]
+        if n.get("k") in ("if", "while") and any(is_free(x) for x in synq.walk(n["cond"])):
+            for part in ("then", "else", "body"):
+                if n.get(part) is not None:
+                    bad += [(x, "branch of an `if` that tests another release") for x in synq.walk(n[part]) if is_free(x)]
+        if n.get("k") == "match" and any(is_free(x) for x in synq.walk(n["scrut"])):
+            bad += [(x, "arm of a `match` on another release") for a_ in n["arms"] for x in synq.walk(a_["body"]) if is_free(x)]
+    rep.ob("R11.3", "define_dtor: no component's release is evaluated only if another component's release reported something", not bad,
+           "; ".join(f"`{render(x)[:50]}` is the {why}" for x, why in bad[:4]) if bad else f"{len(frees)} calls, none conditional on another",
+           f.loc(bad[0][0]) if bad else f.loc())
+
+
 # ============================================================================ R11.4 nothing else releases anything
 def r11_4(rep):
     f, m = emit_table()
@@ -1261,7 +1323,8 @@ def run(rep, tier):
         "discriminant, buffers after their elements; `{snake}_string_free` frees once under len > 0 and resets; every "
         "type that receives a C name in define_live_types also reaches define_dtor — or, when its C name was already "
         "defined for another TypeId, unconditionally takes over the helper registered for the first TypeId recorded in "
-        "`prim_names` under that very name — (handles excepted), `dtor_funcs` is "
+        "`prim_names` under that very name — (handles excepted), no `free(..)` call of define_dtor is control-dependent on the result "
+        "of another one (MIR guard edges + syntax: a short-circuit would drop a sibling component's release), `dtor_funcs` is "
         "trimmed like `type_names` when exports start, and cabi_realloc hands out no heap memory for size 0 (the reason "
         "for the len > 0 guards). "
         "(R11.4) no other instruction template and no import wrapper frees or drops; list/string/map lowering emits no "
@@ -1287,5 +1350,7 @@ def run(rep, tier):
     rep.guard("R11.2", "post-return function", lambda: r11_2_syn(rep))
     rep.guard("R11.3", "GuestDeallocate templates", lambda: r11_3_templates(rep))
     rep.guard("R11.3", "free helpers", lambda: r11_3_helpers(rep))
+    rep.guard("R11.3", "independent releases (MIR)", lambda: r11_3_independent_mir(rep))
+    rep.guard("R11.3", "independent releases", lambda: r11_3_independent_syn(rep))
     rep.guard("R11.4", "nothing else releases", lambda: r11_4(rep))
     rep.guard("R11.5", "auto-dropped borrows", lambda: r11_5(rep))
